@@ -1592,6 +1592,8 @@ decode_huffman_code_block_stateless_base(struct inflate_state *state, uint8_t *s
 
         state->copy_overflow_length = 0;
         state->copy_overflow_distance = 0;
+        state->write_overflow_lits = 0;
+        state->write_overflow_len = 0;
 
         while (state->block_state == ISAL_BLOCK_CODED) {
                 /* While not at the end of block, decode the next
@@ -1691,7 +1693,10 @@ decode_huffman_code_block_stateless_base(struct inflate_state *state, uint8_t *s
                                         return ISAL_END_INPUT;
                                 }
 
-                                if (state->next_out - look_back_dist < start_out)
+                                /* Literals of this lookup that did not fit into the
+                                 * output (write_overflow_len) count as produced */
+                                if (state->next_out + state->write_overflow_len - look_back_dist <
+                                    start_out)
                                         return ISAL_INVALID_LOOKBACK;
 
                                 if (state->avail_out < repeat_length) {
